@@ -55,6 +55,21 @@ def main(argv=None) -> int:
         known_hit = [o for o in failed if o.key in known_keys]
         violations = [o for o in failed if o.key not in known_keys]
 
+        if args.explain:
+            try:
+                wanted = {v["key"] for v in json.load(open(args.explain, encoding="utf-8"))}
+            except Exception as e:  # noqa: BLE001
+                raise AnalysisError(f"cannot read {args.explain}: {e}") from e
+            hits = [o for o in failed if o.key in wanted]
+            print(f"== {prop} explain {args.explain}: {len(hits)} of {len(wanted)} recorded findings reproduce on the current tree")
+            for o in hits:
+                print(f"\n{o.site()}  {o.oid} [{o.rule}]  {o.func}\n  obligation: {o.construct}\n  detail: {o.detail}")
+                m = next((m for m in repo.modules.values() if m.rel == o.rel), None)
+                if m is not None and o.lineno:
+                    lines = m.source.splitlines()
+                    for k in range(max(0, o.lineno - 3), min(len(lines), o.lineno + 4)):
+                        print(f"  {'>>' if k + 1 == o.lineno else '  '} {k + 1:4d} {lines[k]}")
+            return 1 if hits else 0
         print(f"== {prop} tier={args.tier} root={args.root}")
         print(f"analysed: {len(repo.modules)} modules indexed; {len(ctx.analysed_funcs)} functions consulted; {len(ctx.obs)} obligations; counts: " + ", ".join(f"{k}={v}" for k, v in sorted(ctx.counters.items())))
         if repo.renamed_units:
